@@ -11,7 +11,13 @@
    The outcome of nsync_sem_wait_with_cancel_ is inferred (0: the P CAS; non-zero: the next cv.c site is line 253) and
    every returned code announced by the scenario (notes "ret" / "retn") is compared with the model's ghost log.
    Snapshots (S lines) compare the cv queue whenever the cv spinlock is free, and require the model's part of the
-   mutex queue to be a subsequence of the real one. *)
+   mutex queue to be a subsequence of the real one.
+   F15 (wake_waiters clears MU_WAITING at the release of the mutex spinlock when pmu->waiters is empty): the model takes
+   "no plain locker is queued" from the environment at the step of the CAS that takes the spinlock (choice [CMuEmpty]); the
+   replayer derives it by reading ahead to the thread's releasing CAS (site 104: was MU_WAITING cleared?) and from the
+   snapshot that follows the acquiring CAS (the real mutex queue at the moment of the test), and FAILS if the implementation
+   cleared the bit while the model's muq is non-empty or the real queue was not, or kept it while the real queue was empty
+   ([f15_choice]; counters f15:cleared / f15:kept-transferred / f15:kept-transferred+plain / f15:kept-plain-locker). *)
 open Rcommon
 open CvModel
 
